@@ -334,7 +334,7 @@ class YP(object):
         '''call/n (:Goal, Arg, ...). Calls Goal with args appended to its arguments.'''
         goal_value = get_value(goal)
         if isinstance(goal_value, Atom):
-            goal_name = to_python(goal_value)
+            goal_name = goal_value.name()
             goal_args = []
         elif isinstance(goal_value, Functor):
             goal_name = goal_value._name
